@@ -197,6 +197,49 @@ fn run_sigpad() -> Sweep {
     })
 }
 
+/// Size-like tags (signature SIZE / LONGSIZE / PAYLOADSIZE / LONGARCHIVESIZE, main ARCHIVESIZE /
+/// SIZE / LONGSIZE) that disagree with the bytes actually present: the payload is whatever
+/// follows the header, whatever a tag claims.
+fn run_declared_sizes() -> Sweep {
+    let tags: [(bool, u32, u32); 7] = [(true, 1000, 4), (true, 270, 5), (true, 1007, 4), (true, 271, 5), (false, 1046, 4), (false, 5009, 5), (false, 1009, 4)];
+    let plens = [0usize, 1, 7, 64];
+    let rad = [tags.len() as u64, 13, plens.len() as u64];
+    let n = product(&rad);
+    Sweep::new("declared-sizes", "one size-like tag (signature SIZE, LONGSIZE, PAYLOADSIZE, LONGARCHIVESIZE; main ARCHIVESIZE, LONGSIZE, SIZE) with a value from {0, 1, H−1, H, H+1, H+P−1, H+P, H+P+1, P−1, P, P+1, 2^31, 2^32−1} (H = main header length, P = payload length) × payload length ∈ {0,1,7,64}: the written bytes must equal the input whatever the tag claims".into(), n, move |i, acc| {
+        let d = decode(i, &rad);
+        acc.evals += 1;
+        let (in_sig, tag, ty) = tags[d[0] as usize];
+        let p = plens[d[2] as usize];
+        let payload: Vec<u8> = (0..p).map(|k| 0x40 + (k % 50) as u8).collect();
+        let mk = |v: u64| if ty == 4 { Val::Int32(vec![v as u32]) } else { Val::Int64(vec![v]) };
+        // header length does not depend on the value
+        let build = |v: u64| {
+            let mut main = vec![(1000u32, Val::str("n"))];
+            let mut sig = vec![];
+            if in_sig {
+                sig.push((tag, mk(v)));
+            } else {
+                main.push((tag, mk(v)));
+            }
+            (RawHeader::layout_region(62, &sig), RawHeader::layout_region(63, &main))
+        };
+        let h = build(0).1.encoded_len() as u64;
+        let pp = p as u64;
+        let vals = [0, 1, h - 1, h, h + 1, (h + pp).saturating_sub(1), h + pp, h + pp + 1, pp.saturating_sub(1), pp, pp + 1, 1 << 31, u32::MAX as u64];
+        let v = vals[d[1] as usize];
+        let (sg, mn) = build(v);
+        let (x, _) = assemble(&RawLead::new("n"), &sg, 0, &mn, &payload);
+        let case = || json!({"bytes_hex": vlib::hex(&x), "varied": "declared size", "tag": tag, "in_signature_header": in_sig, "value": v, "main_header_len": h, "payload_len": p});
+        if let Some(pk) = oracle_roundtrip("declared-sizes", &x, i, &case, acc) {
+            acc.nontrivial += 1;
+            oracle_offsets("declared-sizes", &pk, i, &case, acc);
+            if i % 37 == 0 {
+                acc.sample(i, case);
+            }
+        }
+    })
+}
+
 pub fn run_assets(ctx: &Ctx, sub: &str) -> SubReport {
     let mut acc = Acc::new();
     for (k, rel) in ASSETS.iter().enumerate() {
@@ -208,6 +251,16 @@ pub fn run_assets(ctx: &Ctx, sub: &str) -> SubReport {
                 acc.nontrivial += 1;
                 oracle_offsets(sub, &p, k as u64, &case, &mut acc);
                 acc.sample(k as u64, || json!({"asset": rel, "bytes": x.len()}));
+                // bytes appended after the payload belong to the payload
+                for extra in [1usize, 9] {
+                    acc.evals += 1;
+                    let mut y = x.clone();
+                    y.extend(std::iter::repeat(0x5a).take(extra));
+                    let c2 = || json!({"asset": rel, "appended_bytes": extra});
+                    if oracle_roundtrip(sub, &y, 200 + k as u64, &c2, &mut acc).is_some() {
+                        acc.nontrivial += 1;
+                    }
+                }
                 // truncated payload is still accepted and round-trips
                 let l = vlib::refhdr::scan(&x).expect("asset scans").3;
                 for cut in [l.payload_off, l.payload_off + 1, (l.payload_off + x.len()) / 2] {
@@ -221,7 +274,7 @@ pub fn run_assets(ctx: &Ctx, sub: &str) -> SubReport {
             None => crate::ctx::machinery(&format!("asset {} is rejected by the parser: the run would be vacuous", rel)),
         }
     }
-    SubReport::new(sub, "A", "the six rpmbuild-produced asset packages, whole and with the payload truncated at three offsets", acc)
+    SubReport::new(sub, "A", "the six rpmbuild-produced asset packages, whole, with 1 and 9 bytes appended, and with the payload truncated at three offsets", acc)
 }
 
 pub fn sweeps(ctx: &Ctx) -> Vec<Sweep> {
@@ -245,6 +298,7 @@ pub fn sweeps(ctx: &Ctx) -> Vec<Sweep> {
     v.push(run_intro());
     v.push(run_lead());
     v.push(run_sigpad());
+    v.push(run_declared_sizes());
     v
 }
 
